@@ -31,10 +31,15 @@ def probe_point(E, m, ax, x):
     return [x if j == ax else pmin[j] for j in range(len(pmin))]
 
 
-def cell_index_of(E, m, ax, x, assume_contract=False):
-    """spec function: index along ax of the cell containing coordinate x = Mesh.point2index(probe point)[ax].
+def cell_index_of(E, m, ax, x, assume_contract=False, centre=False):
+    """spec function: index along ax of the cell containing coordinate x = Mesh.point2index(probe point)[ax]
+    (centre: the cell containing the region centre).
     assume_contract: additionally assume the (separately proved) post-condition of point2index for this application"""
-    p = probe_point(E, m, ax, x)
+    if centre:
+        reg = m.attrs['_region'].attrs
+        p = [E.arith('/', E.arith('+', a, b), 2) for a, b in zip(reg['_pmin'].elems, reg['_pmax'].elems)]
+    else:
+        p = probe_point(E, m, ax, x)
     ks = cell_of(E, m, p)
     if assume_contract:
         c = Point2Index()
@@ -321,8 +326,7 @@ class FieldSel(Contract):
         ridx = E.skolem(rn, 'j')
         c = E.skolem([nv], 'c')[0]
         if k in ('centre', 'value'):
-            x = st.x if k == 'value' else E.arith('/', E.arith('+', pmin[ax], pmax[ax]), 2)
-            kk = Sym(cell_index_of(E, m, ax, x), 'int')
+            kk = Sym(cell_index_of(E, m, ax, st.x if k == 'value' else None, centre=(k == 'centre')), 'int')
             src = list(ridx[:ax]) + [kk] + list(ridx[ax:])
             out.append(('the removed axis is cut at the cell containing the requested coordinate (the central cell if none is given)',
                         z3.And(I(kk) >= 0, I(kk) < I(n[ax]))))
@@ -349,7 +353,8 @@ def contract(name):
 
 
 def contracts_for_use():
-    return [RegionInit(), MeshInit(), Point2Index(), FieldInit()]
+    # Mesh.sel is used through its contract by Field.sel (and proved from its body as the first contract of this module)
+    return [RegionInit(), MeshInit(), Point2Index(), FieldInit(), MeshSel()]
 
 
 INLINED = ['Mesh._sel_convert_input (inlined into Mesh.sel / Field.sel)', 'Mesh.index2point (inlined: centre = pmin + (i+1/2)*cell cancels syntactically)',
@@ -364,6 +369,11 @@ MUTANTS = {
                     )""", 'new': """                    test_point = self.region.pmin.copy()"""},
     'range_upper_exclusive': {'module': 'mesh', 'contract': 'Mesh.sel', 'config': {'ndim': 2, 'axis': 0, 'kind': 'range'},
                               'old': 'max_val = selection[1] + step', 'new': 'max_val = selection[1] - step'},
+    'field_sel_values_altered': {'module': 'field', 'contract': 'Field.sel', 'config': {'ndim': 2, 'nvdim': 3, 'axis': 0, 'kind': 'range'}, 'expect': 'array[j, c]',
+                                 'old': '        array = self.array[slices]\n\n        valid = self.valid[slices[:-1]]', 'new': '        array = np.abs(self.array[slices])\n\n        valid = self.valid[slices[:-1]]'},
+    'field_sel_valid_unsliced_axis': {'module': 'field', 'contract': 'Field.sel', 'config': {'ndim': 2, 'nvdim': 3, 'axis': 1, 'kind': 'value'}, 'expect': 'valid[j]',
+                                      'old': '        valid = self.valid[slices[:-1]]\n\n        try:\n            mesh = self.mesh.sel(*args, **kwargs)',
+                                      'new': '        valid = self.valid[slices[:-1]]\n        valid = np.ones_like(valid)\n\n        try:\n            mesh = self.mesh.sel(*args, **kwargs)'},
     'plane_keeps_wrong_axis': {'module': 'mesh', 'contract': 'Mesh.sel', 'config': {'ndim': 3, 'axis': 0, 'kind': 'centre'},
                                'old': 'idxs = [i for i in range(self.region.ndim) if i != dim_index]', 'new': 'idxs = [i for i in range(self.region.ndim) if i != self.region.ndim - 1 - dim_index]'},
 }
